@@ -799,6 +799,12 @@ class InterpMixin:
 
     def compare(self, op, a, b):
         t = type(op)
+        if t in (ast.Is, ast.IsNot):
+            num = lambda x: (isinstance(x, (int, float)) and not isinstance(x, bool)) or isinstance(x, (SymInt, SymReal))
+            if num(a) and num(b):
+                # `is` between two numbers compares object identity: true for CPython's cached small ints, false for most other equal
+                # values -- implementation dependent, so no verdict can rest on it
+                raise Unsupported("identity comparison (`is`) between numbers")
         if t is ast.Is:
             return self.py_is(a, b)
         if t is ast.IsNot:
@@ -1169,6 +1175,11 @@ class InterpMixin:
                 # CPython randomises str hashes per process: the iteration order of this set differs between interpreter runs
                 self.oblige("order-independence(iteration over a set of strings: the order depends on the per-process hash seed)", z3.BoolVal(False),
                             elements=str(sorted(v))[:160])
+            elif len(v) >= 2 and not getattr(self, "_order_insensitive", False):
+                # the order of a set of numbers follows the hash table layout: it depends on the values AND on the insertion history
+                # (list(set(xs)) need not equal list(set(list(set(xs))))); the interpreter uses sorted order, which is not CPython's
+                self.oblige("order-independence(iteration over a set: the order is an artefact of the hash table, not a function of the elements)", z3.BoolVal(False),
+                            elements=str(sorted(v, key=repr))[:160])
             try:
                 return sorted(v)
             except TypeError:
